@@ -94,6 +94,8 @@ type Def struct {
 	Axis      string    `json:"axis,omitempty"`
 	// OmitDefaults: parameters whose value is PROJ's default (lat_0, lon_0, x_0, y_0 = 0; k/k_0 = 1) are left out of the text
 	OmitDefaults bool `json:"omit_defaults,omitempty"`
+	// RA: the text carries +R_A (the sphere of the same surface area instead of the ellipsoid)
+	RA bool `json:"r_a,omitempty"`
 }
 
 func f(v float64) string { return strconv.FormatFloat(v, 'f', -1, 64) } // no exponent: '+' separates PROJ.4 parameters
@@ -193,6 +195,9 @@ func (d Def) String() string {
 	if d.Axis != "" {
 		w("+axis=" + d.Axis)
 	}
+	if d.RA {
+		w("+R_A")
+	}
 	w("+no_defs")
 	return strings.TrimSpace(sb.String())
 }
@@ -262,6 +267,7 @@ type Opts struct {
 	NoPM     bool
 	NoUnits  bool
 	WithAxis bool
+	WithRA   bool // one definition in ten carries +R_A
 	// SmallShift keeps explicit +towgs84 terms small (<=100 m, <=1 arcsec, <=5 ppm) so that a 2-D round trip,
 	// which cannot carry the ellipsoidal height, stays invertible to millimetres.
 	SmallShift bool
@@ -402,6 +408,9 @@ func GenDef(t *rapid.T, o Opts) Def {
 	}
 	if o.WithAxis && rapid.IntRange(0, 2).Draw(t, "useaxis") == 0 {
 		d.Axis = rapid.SampledFrom([]string{"enu", "neu", "wnu", "esu", "wsu", "end", "swu"}).Draw(t, "axis")
+	}
+	if o.WithRA && rapid.IntRange(0, 9).Draw(t, "ra") == 4 {
+		d.RA = true
 	}
 	if rapid.IntRange(0, 2).Draw(t, "omitdefaults") == 1 {
 		// rely on PROJ's defaults: parameters equal to their default are not written; to make that bite, some of them are
